@@ -36,6 +36,10 @@ type tstats struct {
 	// failing forms are drawn only in documents that allow them (one in four), so that most
 	// documents exercise the value comparison rather than the error path
 	allowFail bool
+	// failAt > 0: the failAt-th string generated for the document (and only that one) gets a failing
+	// expansion appended - so that in some documents exactly ONE string fails, at a position drawn over
+	// all positions (a plugin source, a cache path, a key of an unknown field ...): the call must report it
+	failAt, count int
 }
 
 // whole strings that are exactly one reference, or exactly the value / the text another one expands
@@ -46,13 +50,25 @@ var pureRefs = []string{"$B", "$A", "${B}", "${A}", "$C", "$HOME", "a-val", "/ho
 var pureKeyRefs = []string{"$B", "$A", "$C", "$HOME", "$$A and ${HOME}"}
 
 func template(t *rapid.T, label string, st *tstats) string {
+	s := template0(t, label, st)
+	if !strings.HasSuffix(label, "-tail") {
+		st.count++
+		if st.count == st.failAt {
+			s += "${UNSET1?}"
+			st.failing++
+		}
+	}
+	return s
+}
+
+func template0(t *rapid.T, label string, st *tstats) string {
 	isKey := label == "anykey" || label == "envkey" || label == "dim"
 	if isKey && rapid.IntRange(0, 9).Draw(t, label+"pure") != 4 {
 		// mapping keys carry a literal prefix that is unique in the document, so that two keys of one
 		// mapping cannot expand to the same text (colliding expanded keys are outside the property and
 		// would exclude the whole document); one key in ten is a pure reference instead
 		st.nkey++
-		return fmt.Sprintf("k%d", st.nkey) + template(t, label+"-tail", st)
+		return fmt.Sprintf("k%d", st.nkey) + template0(t, label+"-tail", st)
 	}
 	if isKey || rapid.IntRange(0, 9).Draw(t, label+"pure") == 4 {
 		from := pureRefs
@@ -197,6 +213,9 @@ var rec = ev.New("TestPropEveryStringOnce", "grammar-generated pipelines (all st
 func TestPropEveryStringOnce(t *testing.T) {
 	ev.Check(t, 1000, 10000, func(t *rapid.T) {
 		st := &tstats{allowFail: rapid.IntRange(0, 3).Draw(t, "allowfail") == 2}
+		if !st.allowFail && rapid.IntRange(0, 3).Draw(t, "singlefail") == 0 {
+			st.failAt = rapid.IntRange(1, 60).Draw(t, "failat")
+		}
 		cfg := doc.Config{
 			Str:       func(t *rapid.T, role string) string { return template(t, role, st) },
 			PluginSrc: func(t *rapid.T) string { return "plug" + template(t, "src", st) },
@@ -277,6 +296,9 @@ func TestPropEveryStringOnce(t *testing.T) {
 		})
 		nt := wantErr == nil && ((st.escapes >= 1 && st.refs >= 5) || bigKeyed)
 		cls := []string{}
+		if st.failAt > 0 && st.failing == 1 {
+			cls = append(cls, "exactly-one-failing-string-at-a-drawn-position")
+		}
 		if wantErr != nil {
 			cls = append(cls, "expansion-error")
 		}
